@@ -227,6 +227,11 @@ def main():
             seen.add(key)
             uniq.append(s)
     findings = scenrun.evaluate(rep, uniq, evaluate, procs=a.procs)
+
+    def _mut(s):
+        s["pred"]["wcovx16"][0] += 1
+        return s
+    scenrun.self_test(rep, uniq, evaluate, _mut, "whitened covariance eigenvalue + 1/16")
     findings += generic(rep, a)
     scenrun.report(rep, findings, TAGS)
     rep.exhaustive = True
